@@ -106,11 +106,6 @@ def clusterMarkers {K : Type} (Fn Xi : Mat (Option K)) (Lab : Mat Int) (hide : B
   if hide then (clusterXY Fn Xi Lab 1, none)
   else (clusterXY Fn Xi Lab 1, some (clusterXY Fn Xi Lab 0))
 
-/-- `Fn_pol[:, order]`: the column that `SSI_mpe` / `pLSCF_mpe` read for an integer `order`
-    (`none` = `IndexError`). -/
-def mpeColumn {K : Type} (Fn : Mat (Option K)) (order : Nat) : Option (List (Option K)) :=
-  if order < Fn.c then some ((List.range Fn.r).map fun i => Fn.e i order) else none
-
 /-! ### CMIF -/
 
 /-- `np.argmax` of a non-empty vector given as a function on `0..n-1`: first maximum. -/
